@@ -174,6 +174,16 @@ theorem resize_skeleton_denotes_model (c : Cfg α) (n : Nat) (s : SV α) :
   have h : Gen.resizeSk = Skeleton.resizeSk := by rfl
   rw [h]; exact resize_denotes_aux c n s
 
+/-- The same for `operator=(const small_vector &rhs)` (`this != &rhs`): the extracted skeleton, executed on
+    the local state (`*this`, `n`, `needs_memory`, `assigned`) with the meanings `assignSem`, is the
+    model's `assignCopy` for every well-formed destination and every readable source. -/
+theorem assign_skeleton_denotes_model (c : Cfg α) {dst src : SV α} {els : List (Slot α)} (hd : Rep c dst els)
+    {vals : List α} (hv : readRange src.buf 0 src.size = .ok vals) :
+    (execL (assignSem c vals) Gen.assignCopySk ⟨dst, 0, false, 0⟩ >>= fun st => pure st.d)
+      = assignCopy c dst src := by
+  have h : Gen.assignCopySk = Skeleton.assignCopySk := by rfl
+  rw [h]; exact assignCopy_denotes_aux c hd hv
+
 /-- call-site layer: every small_vector member (constructor, operator) that some translation unit of
     the library uses — through fitness_t (`small_vector<double,1>`), the gene argument vectors
     (`small_vector<locus,K>`, `small_vector<packed_index_t,K>`) or the offspring vectors of
@@ -208,6 +218,11 @@ example : specRun (cfgS false) eqMod (fun a b => decide (a < b)) SpecM.init demo
        .none, .val 4, .val 4, .none, .nat 18446744073709551615,
        .none]) := by
   rfl
+
+/-- the hypotheses of `assign_skeleton_denotes_model` are inhabited (two freshly constructed vectors) -/
+example : ∃ els vals, Rep (cfgS false) (Mach.init (cfgS false)).a els ∧
+    readRange (Mach.init (cfgS false)).b.buf 0 (Mach.init (cfgS false)).b.size = .ok vals :=
+  ⟨_, [], (sim_init (cfgS false)).1.2 [] rfl, rfl⟩
 
 /-! ### legacy: the defects of the pinned tree (b4a6232), as witnesses against the old code paths -/
 
